@@ -651,6 +651,13 @@ static void ginit(void)
             ckeys[3 + n0++] = k;
         }
     }
+    if (vx_opt_int("ekeys", 0)) {
+        /* caller-supplied keys at the ends of the key range: the largest two keys, and a small one that the
+         * generated series reaches while it is still live */
+        ckeys[1] = UINT64_MAX - 1;
+        ckeys[2] = UINT64_MAX;
+        ckeys[4] = 2;
+    }
     /* is the comparator a strict weak order on the tag alphabet? */
     cmp_is_order = true;
     struct cmi_heap_tag t[32];
